@@ -111,6 +111,7 @@ type Expect struct {
 	Upper  []JPos  `json:"upper,omitempty"`
 	Err    bool    `json:"err,omitempty"`
 	Miss   []JPos  `json:"miss,omitempty"`
+	Missm  []JPos  `json:"missm,omitempty"`
 	Hs     []string `json:"hs,omitempty"`
 }
 
